@@ -185,6 +185,23 @@ CHECKS["C19"] = ("other",
     "property's domain (a trim on that path was a genuine defect, repaired), and quotes are added exactly on the is_string branch.",
     TB % "c19", "abstract interpretation of MIR with symbolic format arguments; backward data slice with an operation allowlist", "DESIGN.md §5 C19")
 
+# rules added after the second round of seeded changes (appended to the claim text; the authoritative list is each module's docstring / DESIGN §10.3)
+MORE = {
+    "C01": "Also: evaluator error discipline — in each of the ~150 reachable Result-returning functions under rules:: a callee's Err leads to an Err return on every path (one reviewed conversion: NotComparable in each_lhs_compare).",
+    "C02": "Also: every delegating RecordTracer::end_record hands the incoming record on unchanged; the one rewriting wrapper keeps name and status and rewrites only the called rule's record.",
+    "C03": "Also: the side over which a negated query-vs-query comparison recomputes its difference, as a table over (operator, rhs.len()>=lhs.len()).",
+    "C05": "Also: chrono::Local (process time zone) is an ambient source.",
+    "C07": "Also: no PASS/FAIL entry is ever removed from the summary table's section maps (only the reviewed SKIP clean-up).",
+    "C08": "Also: reviewed table rows whose reason relates two sites are re-decided (split(P)[1] only under contains(P) of the same constant), and positive controls on a fixture crate for every construct family and for cycle detection.",
+    "C09": "Also: the fold in get_rule_info pushes every rules file that was read exactly once; Validate::execute never removes entries from the collected file lists.",
+    "C11": "Also: path-sensitive decision table of all three tag decision points (expanded iff the tag is in SINGLE_VALUE_FUNC_REF or SEQUENCE_VALUE_FUNC_REF, whatever the payload kind); a genuine loader disagreement was found and repaired.",
+    "C12": "Also: the per-data-file JUnit counters are initialised inside the loop over the data files.",
+    "C14": "Also: a separator is required after the or-keyword and after not; list/map literals separate with the layout-tolerant separated_by; the text of string/regex literals reaches the value only through slicing at the escape.",
+    "C15": "Also: every Ok return of a parameterised call follows exactly one evaluation of the called rule; a bare %v hands the stored entry on unchanged (a Literal stays Literal).",
+    "C17": "Also: every file accepted by a discovery loop reaches build_data_file before the next iteration.",
+    "C18": "Also: parse_epoch's value passes only through parse_from_rfc3339 -> with_timezone::<Utc> -> timestamp; substring offsets are truncated to u16 (never clamped); no buffer created outside the per-element loop flows into an element's result; json_parse errors on unparsable text.",
+}
+
 NOT_APPLICABLE = {
 }
 
@@ -203,7 +220,7 @@ def main():
             "evidence_file": "/verif/evidence/%s.json" % pid,
             "replay_cmd_template": "./check %s --replay {path}" % pid,
             "engine": "guard-facts + python engines",
-            "level_claimed": {"category": cat, "text": text, "design_ref": ref},
+            "level_claimed": {"category": cat, "text": (text + " " + MORE[pid]) if pid in MORE else text, "design_ref": ref},
             "level_note": note,
             "technique": tech,
         })
